@@ -597,6 +597,53 @@ pub fn gen_deleg(files: &BTreeMap<String, syn::File>, out: &mut String) {
     writeln!(out, "(* impls.rs, impl_zeroize.rs, lib.rs :: the bodies of the trait impls for GenericArray that delegate to the slice *)\nDefinition gen_delegations : list (string * deleg) :=\n  [{}].", rows.join(";\n   ")).unwrap();
 }
 
+// ------------------------------------------------------------------ inverse bounds of Lengthen / Shorten (T1)
+
+/// `type Longer: Shorten<T, Shorter = Self>;` -> ("Lengthen", "Longer", "Shorten", Some "Shorter")
+pub fn gen_inverse_bounds(files: &BTreeMap<String, syn::File>, out: &mut String) {
+    let Some(file) = files.get("sequence.rs") else { return };
+    let mut rows = vec![];
+    for tr_name in ["Lengthen", "Shorten"] {
+        let mut found = false;
+        for it in &file.items {
+            let Item::Trait(tr) = it else { continue };
+            if tr.ident != tr_name {
+                continue;
+            }
+            for ti in &tr.items {
+                let syn::TraitItem::Type(ty) = ti else { continue };
+                for b in &ty.bounds {
+                    let TypeParamBound::Trait(tb) = b else { continue };
+                    let seg = last_seg(&tb.path);
+                    let bname = seg.ident.to_string();
+                    if bname != "Lengthen" && bname != "Shorten" {
+                        continue;
+                    }
+                    // an associated-type equality `X = Self` among the generic arguments
+                    let mut back = "None".to_string();
+                    if let PathArguments::AngleBracketed(a) = &seg.arguments {
+                        for ga in &a.args {
+                            if let GenericArgument::AssocType(at) = ga {
+                                if let Type::Path(p) = &at.ty {
+                                    if p.path.is_ident("Self") {
+                                        back = format!("(Some \"{}\")", at.ident);
+                                    }
+                                }
+                            }
+                        }
+                    }
+                    rows.push(format!("(\"{}\", \"{}\", \"{}\", {})", tr_name, ty.ident, bname, back));
+                    found = true;
+                }
+            }
+        }
+        if !found {
+            println!("ERROR GenSigs.v inverse_bounds: no Lengthen/Shorten bound on an associated type of {}", tr_name);
+        }
+    }
+    writeln!(out, "\n(* the bounds `type Longer: Shorten<T, Shorter = Self>` / `type Shorter: Lengthen<T, Longer = Self>`:\n   (trait, associated type, bounding trait, the associated type equated with Self) *)\nDefinition gen_inverse_bounds : list (String.string * String.string * String.string * option String.string) :=\n  [{}]%string.", rows.join("; ")).unwrap();
+}
+
 // ------------------------------------------------------------------ lifetimes of reference-returning signatures (T1)
 
 #[derive(Clone, Debug, PartialEq)]
